@@ -234,6 +234,17 @@ fn cr0_write_then_read(a: u64) -> [u64; 3] {
     let f1 = Cr0::read().bits();
     [r0, r1, f1]
 }
+/// DR7 and DR0: read, write, read in one function
+#[inline(never)]
+fn dr_write_then_read(a: u64, b: u64) -> [u64; 4] {
+    let r0 = Dr7::read_raw();
+    Dr7::write_raw(a);
+    let r1 = Dr7::read_raw();
+    let d0 = Dr0::read();
+    Dr0::write(b);
+    let d1 = Dr0::read();
+    [r0, r1, d0, d1]
+}
 /// CR3 read, write, read in one function: the second read must see the write
 #[inline(never)]
 fn cr3_write_then_read(frame: u64, low: u16) -> [u64; 4] {
@@ -297,6 +308,15 @@ pub fn run_regs(out: &mut Out, seed: u64, _n: u64) {
             let got = cr3_write_then_read(fr, low);
             let ins = cpu::drain();
             out.emit(Ev::new("reg_seq").str("api", "Cr3::read_raw;Cr3::write_raw;Cr3::read_raw").w("pre", pre).w("mask", 0).words("p", &[fr, low as u64]).words("r", &got).w("post", get(Reg::Cr(3))).raw("instrs", &cpu::instrs_json(&ins)));
+        }
+        {
+            let (pre7, pre0, a, b) = (r.next(), r.next(), r.next(), r.next());
+            set(Reg::Dr(7), pre7);
+            set(Reg::Dr(0), pre0);
+            cpu::drain();
+            let got = dr_write_then_read(a, b);
+            let ins = cpu::drain();
+            out.emit(Ev::new("reg_seq").str("api", "Dr7/Dr0 read;write;read").w("pre", pre7).w("mask", pre0).words("p", &[a, b]).words("r", &got).w("post", get(Reg::Dr(7))).raw("instrs", &cpu::instrs_json(&ins)));
         }
         let me = EferFlags::all().bits();
         let (pre, a, b) = (r.next(), r.next() & me, r.next() & me);
